@@ -9,6 +9,7 @@ package main
 
 import (
 	"go/token"
+	"go/types"
 	"reflect"
 
 	"golang.org/x/tools/go/ssa"
@@ -230,4 +231,245 @@ func cellOf2(addr ssa.Value) string {
 		return "cell:" + fv.Name() + "@" + fv.Parent().Name()
 	}
 	return ""
+}
+
+// R-C08-ITEMS: "names set by tags (loop variables) denote exactly the value …". The Value a loop variable is bound to is
+// made from a reflect.Value the iteration took out of the list or map. An item that is the engine's own *Value (a
+// []*Value, a *Value in a []any) must not be wrapped a second time — the wrapper is a pointer to the engine's struct,
+// on which `v.foo`, `v|length` and `{% if v %}` answer about the struct, not about what the item holds. Every Value the
+// iteration makes from an item is made only after the item's type was compared with *Value (or the item is invalid).
+func ruleC08Items(p *Prog, a *Anchors, r *Report) {
+	r.Begin("R-C08-ITEMS", "the iteration (IterateOrder) makes a Value from an item only after comparing the item's type with the engine's *Value: a *Value item is bound as it is, not wrapped again", 1)
+	it := p.Method("Value", "IterateOrder")
+	if it == nil {
+		r.Unk("anchor", "-", "anchor unresolved: (*Value).IterateOrder")
+		return
+	}
+	var valT *ssa.Global
+	for _, f := range p.inPkgFuncsSorted(p.allFuncSet()) {
+		if f.Name() != "init" {
+			continue
+		}
+		for _, b := range f.Blocks {
+			for _, in := range b.Instrs {
+				st, ok := in.(*ssa.Store)
+				if !ok {
+					continue
+				}
+				g, isG := st.Addr.(*ssa.Global)
+				c, isC := st.Val.(*ssa.Call)
+				if !isG || !isC || c.Common().StaticCallee() == nil || p.extName(c.Common().StaticCallee()) != "reflect.TypeOf" {
+					continue
+				}
+				if mi, isMI := c.Common().Args[0].(*ssa.MakeInterface); isMI {
+					if n := structOf(mi.X.Type()); n == a.Value {
+						valT = g
+					}
+				}
+			}
+		}
+	}
+	if valT == nil {
+		r.Unk("anchor", "-", "no package variable holds reflect.TypeOf(new(Value))")
+		return
+	}
+	// an item: the result of Index / MapIndex / an element of MapKeys / MapRange's Key/Value — also through the
+	// interface-opening helper and through parameters of helpers of the iteration
+	var isItem func(v ssa.Value, d int) bool
+	isItem = func(v ssa.Value, d int) bool {
+		if v == nil || d > 6 {
+			return false
+		}
+		v = stripLoad(v)
+		switch x := v.(type) {
+		case *ssa.Call:
+			callee := x.Common().StaticCallee()
+			if callee == nil {
+				return false
+			}
+			switch p.extName(callee) {
+			case "(reflect.Value).Index", "(reflect.Value).MapIndex", "(*reflect.MapIter).Key", "(*reflect.MapIter).Value":
+				return true
+			}
+			if p.InPkg(callee) && callee.Blocks != nil && len(x.Common().Args) > 0 {
+				for _, arg := range x.Common().Args {
+					if isItem(arg, d+1) {
+						return true
+					}
+				}
+			}
+		case *ssa.UnOp:
+			if ia, ok := x.X.(*ssa.IndexAddr); ok {
+				// an element of the key list
+				return isReflectValue(ia.X.Type().Underlying().(interface{ Elem() types.Type }).Elem())
+			}
+		case *ssa.Phi:
+			for _, e := range x.Edges {
+				if isItem(e, d+1) {
+					return true
+				}
+			}
+		case *ssa.Parameter:
+			for _, s := range paramActualSites(p, x) {
+				if isItem(s.val, d+1) {
+					return true
+				}
+			}
+		case *ssa.Extract:
+			return isItem(x.Tuple, d+1)
+		}
+		return false
+	}
+	n := 0
+	for _, f := range clusterOf(p, it, 2) {
+		if f.Signature.Recv() != nil && f != it && structOf(f.Signature.Recv().Type()) != nil && structOf(f.Signature.Recv().Type()).Obj().Name() != "Value" {
+			continue // orderings over the keys compare, they bind nothing
+		}
+		for _, b := range f.Blocks {
+			for _, in := range b.Instrs {
+				st, ok := in.(*ssa.Store)
+				if !ok || !isFieldAddrOf(st.Addr, "Value", "val") {
+					continue
+				}
+				if len(p.directAllocs(st.Addr.(*ssa.FieldAddr).X, 0)) == 0 || !isItem(st.Val, 0) {
+					continue
+				}
+				n++
+				key := p.FuncName(topLevel(f)) + ":item"
+				if n > 1 {
+					key += "#" + itoa(int64(n))
+				}
+				tested := Guarded(in, func(c ssa.Value, pol bool) bool {
+					// item.Type() == typeOfValuePtr on its false edge …
+					if bo, ok := c.(*ssa.BinOp); ok && (bo.Op == token.EQL || bo.Op == token.NEQ) {
+						for _, pr := range [][2]ssa.Value{{bo.X, bo.Y}, {bo.Y, bo.X}} {
+							tc, isCall := stripConvIface(pr[0]).(*ssa.Call)
+							if !isCall || tc.Common().StaticCallee() == nil || p.extName(tc.Common().StaticCallee()) != "(reflect.Value).Type" {
+								continue
+							}
+							if u, isU := stripConvIface(pr[1]).(*ssa.UnOp); isU && u.X == ssa.Value(valT) {
+								return (bo.Op == token.EQL) != pol
+							}
+						}
+					}
+					// … or the item is invalid
+					if cc, ok := c.(*ssa.Call); ok && cc.Common().StaticCallee() != nil && p.extName(cc.Common().StaticCallee()) == "(reflect.Value).IsValid" {
+						return !pol
+					}
+					return false
+				})
+				if tested {
+					r.OK(key, p.InstrPos(in), "the item's type was compared with *Value before it is wrapped")
+				} else {
+					r.Bad(key, p.InstrPos(in), "%s wraps an item of the list or map into a new Value without looking whether the item is a *Value itself: {%% for v in values %%} over a []*Value (or a []any holding one) binds v to a pointer to the engine's struct — {{ v.foo }} is empty, {{ v|length }} is 0 and {%% if v %%} is true whatever the item holds, while {{ values.0.foo }} resolves correctly", p.FuncName(f))
+				}
+			}
+		}
+	}
+	if n == 0 {
+		r.Unk("none", "-", "no Value made from an item found in the iteration")
+	}
+}
+
+// stripConvIface: v without MakeInterface / ChangeInterface conversions.
+func stripConvIface(v ssa.Value) ssa.Value {
+	for i := 0; i < 4; i++ {
+		switch x := v.(type) {
+		case *ssa.MakeInterface:
+			v = x.X
+		case *ssa.ChangeInterface:
+			v = x.X
+		default:
+			return v
+		}
+	}
+	return v
+}
+
+// ruleC08CallNil (obligations of R-C08-CALL): "function call with the evaluated arguments … never a wrong value".
+//   - the nil of the parameter's type (reflect.Zero) stands in only for the argument that has no type at all — the
+//     untyped nil. A nil *T handed to an interface parameter keeps its type in Go (a nil-safe method can be called on
+//     it, %T prints it); Value.IsNil() answers true for every nil pointer, so a substitution behind it loses the type.
+//   - what is called may stand behind pointers like everything else a step works on: the "is not a function" refusal
+//     is reached only after a loop that follows pointers and interfaces.
+func ruleC08CallNil(p *Prog, a *Anchors, r *Report) {
+	res := p.Method("variableResolver", "resolve")
+	isNil := p.Method("Value", "IsNil")
+	if res == nil {
+		return
+	}
+	for _, f := range clusterOf(p, res, 2) {
+		for _, b := range f.Blocks {
+			for _, in := range b.Instrs {
+				c, ok := in.(*ssa.Call)
+				if !ok || c.Common().StaticCallee() == nil || p.extName(c.Common().StaticCallee()) != "reflect.Zero" {
+					continue
+				}
+				key := p.FuncName(topLevel(f)) + ":zero-argument"
+				byIsNil := isNil != nil && Guarded(in, func(cond ssa.Value, pol bool) bool {
+					cc, isC := cond.(*ssa.Call)
+					return isC && pol && cc.Common().StaticCallee() == isNil
+				})
+				byType := Guarded(in, func(cond ssa.Value, pol bool) bool {
+					x, eq, isNilTest := condIsNilTest(cond)
+					if !isNilTest || eq != pol {
+						return false
+					}
+					tc, isC := stripLoad(x).(*ssa.Call)
+					return isC && tc.Common().StaticCallee() != nil && p.extName(tc.Common().StaticCallee()) == "reflect.TypeOf"
+				})
+				switch {
+				case byType && !byIsNil:
+					r.OK(key, p.InstrPos(in), "the parameter type's nil stands in only for an argument without a type (the untyped nil)")
+				case byIsNil:
+					r.Bad(key, p.InstrPos(in), "the nil of the parameter's type is substituted whenever Value.IsNil() holds — which it does for every nil pointer: a nil *T handed to an interface parameter arrives as the nil interface (s == nil is true, a nil-safe method is never called, %%T prints <nil>) although Go passes the typed nil")
+				default:
+					r.Assume(key, p.InstrPos(in), "the condition under which the zero value stands in was not recognised")
+				}
+			}
+		}
+	}
+	// the refusal "is not a function"
+	for _, b := range res.Blocks {
+		iff, ok := b.Instrs[len(b.Instrs)-1].(*ssa.If)
+		if !ok {
+			continue
+		}
+		c, pol := normCond(iff.Cond, true)
+		bo, ok := c.(*ssa.BinOp)
+		if !ok || (bo.Op != token.EQL && bo.Op != token.NEQ) {
+			continue
+		}
+		k, isK := kindConst(bo.Y)
+		kc, isCall := bo.X.(*ssa.Call)
+		if !isK || k != int(reflect.Func) || !isCall || kc.Common().StaticCallee() == nil || p.extName(kc.Common().StaticCallee()) != "(reflect.Value).Kind" {
+			continue
+		}
+		// the edge on which the kind is NOT Func, if it only returns errors
+		notFunc := 1
+		if (bo.Op == token.NEQ) == pol {
+			notFunc = 0
+		}
+		if !errorReturnsOnly(res, b.Succs[notFunc]) || len(b.Succs[notFunc].Instrs) == 0 {
+			continue
+		}
+		key := "resolve:call-follows-pointers"
+		follows := mustPassFromFlags(res.Blocks[0], b.Succs[notFunc].Instrs[0], func(x ssa.Instruction) bool {
+			cmp, isCmp := x.(*ssa.BinOp)
+			if !isCmp || cmp.Op != token.EQL {
+				return false
+			}
+			kk, isKK := kindConst(cmp.Y)
+			if !isKK || kk != int(reflect.Ptr) || innermostLoopHeader(x.Block()) == nil {
+				return false
+			}
+			cc, isC := cmp.X.(*ssa.Call)
+			return isC && cc.Common().StaticCallee() != nil && p.extName(cc.Common().StaticCallee()) == "(reflect.Value).Kind" && cellOf(cc.Common().Args[0]) == cellOf(kc.Common().Args[0])
+		})
+		if follows {
+			r.OK(key, p.InstrPos(iff), "the \"is not a function\" refusal comes after a loop that follows pointers")
+		} else {
+			r.Bad(key, p.InstrPos(iff), "a call step refuses whatever is not of kind Func without following pointers first: {{ hooks.OnSave(x) }} with OnSave a *func(…) — or a func behind an interface holding a pointer — fails with \"is not a function (it is ptr)\", and a nil pointer is an error instead of the empty value, although every other kind of step follows pointers")
+		}
+	}
 }
